@@ -471,7 +471,7 @@ pub fn c07(tier: Tier) -> i32 {
 #[derive(Clone, Debug)]
 struct Sc13 {
     placement: u8,          // bitmask of nodes that receive transactions
-    txs_per_node: usize,    // 1 or 2
+    txs_per_node: usize,    // 1 or 2; 40..250 in the burst scenarios
     slow_links: Vec<(usize, usize)>,
     lost_batch: Option<(usize, usize)>, // (author, node that misses the broadcast)
     mute_author: bool,      // the author never answers the BatchRequest (only the retry can succeed)
@@ -775,6 +775,11 @@ pub fn c13(tier: Tier) -> i32 {
     let mut rep = Report::new("C13", tier, "fault_enumeration");
     let mut grid: Vec<Sc13> = Vec::new();
     let placements: Vec<u8> = (1..16).collect();
+    // bursts: one node (or all) receives many transactions at once, each sealing its own batch, so
+    // that far more batch digests are pending than one block has carried so far (fault-free)
+    for (p, k) in tier.pick(vec![(1u8, 40usize), (4, 150)], vec![(1u8, 40usize), (2, 40), (4, 150), (8, 150), (15, 40), (1, 250)]) {
+        grid.push(Sc13 { placement: p, txs_per_node: k, slow_links: vec![], lost_batch: None, mute_author: false });
+    }
     let link_sets: Vec<Vec<(usize, usize)>> = tier.pick(vec![vec![], vec![(0, 2)], vec![(0, 1), (2, 3)]], vec![vec![], vec![(0, 1)], vec![(0, 2)], vec![(1, 3)], vec![(0, 1), (2, 3)], vec![(0, 2), (1, 2)]]);
     for &p in &placements {
         for k in 1..=tier.pick(1usize, 2usize) {
